@@ -339,7 +339,11 @@ def run(ctx):
         elif oa:
             dist["tc_both_ok"] += 1
         else:
-            if ea == ez:
+            if not pa and not pz and ea and ez and ea[0] == ez[0]:
+                # both are syntax errors on the same line: the message names the next token, which is
+                # spelled differently in the two languages
+                dist["tc_both_err_same_class"] += 1
+            elif ea == ez:
                 dist["tc_both_err_same_class"] += 1
             elif ea and ez and ea[0] == ez[0] and cause_of(ea[1]) == cause_of(ez[1]):
                 dist["tc_both_err_same_class"] += 1
